@@ -5,6 +5,7 @@ import (
 	"errors"
 	"flag"
 	"fmt"
+	"math"
 	"os"
 	"strconv"
 	"strings"
@@ -219,7 +220,7 @@ func (g *hookGen) next(first bool) string {
 		g.adds++
 		p := def.TaskUpdateParam{WorkId: option.Some("w"), ScheduledAt: option.Some(g.when())}
 		if r.Chance(1, 2) {
-			p.Priority = option.Some(r.Intn(3) - 1)
+			p.Priority = option.Some(hookPrio(r))
 		}
 		return fmt.Sprintf("add %s t%d %s", g.fault(), g.adds, proto.Param(p))
 	case w < 50:
@@ -228,10 +229,10 @@ func (g *hookGen) next(first bool) string {
 		case 0:
 			p.ScheduledAt = option.Some(g.when())
 		case 1:
-			p.Priority = option.Some(r.Intn(3) - 1)
+			p.Priority = option.Some(hookPrio(r))
 		case 2:
 			p.ScheduledAt = option.Some(g.when())
-			p.Priority = option.Some(r.Intn(3) - 1)
+			p.Priority = option.Some(hookPrio(r))
 		case 3:
 			p.Param = option.Some(map[string]string{"k": "v"})
 		}
@@ -355,4 +356,20 @@ func containsAdd(ops []string, id string) bool {
 		}
 	}
 	return false
+}
+
+// hookPrio: three small priorities, and now and then a boundary value of Go's int (a comparator that subtracts
+// priorities overflows there; the model's integers are unbounded).
+func hookPrio(r *rng.R) int {
+	if r.Chance(1, 12) {
+		return rng.Pick(r, []int{math.MinInt64, math.MaxInt64, math.MinInt64 + 1, math.MaxInt64 - 1})
+	}
+	return r.Intn(3) - 1
+}
+
+func purePrio(r *rng.R) int {
+	if r.Chance(1, 6) {
+		return rng.Pick(r, []int{math.MinInt64, math.MaxInt64, math.MinInt64 + 1, math.MaxInt64 - 1})
+	}
+	return r.Intn(5) - 2
 }
